@@ -14,33 +14,59 @@ EXPDIR = os.path.join(CACHE, "expanded")
 TARGET = os.path.join(CACHE, "target-expand")
 
 
-def expand(crate_dir, crate_name, features=(), cfgs=(), allow_errors=True):
-    """Return the pretty-printed expansion of the crate's lib target (cached by content hash)."""
+def expand(crate_dir, crate_name, features=(), cfgs=(), allow_errors=True, failures=None):
+    """Return the pretty-printed expansion of the crate's lib target (cached by content hash).
+
+    `failures` (a dict) switches on module skipping: when the macro's output for a witness module does
+    not even parse, rustc prints no expansion at all; the offending module (named by the diagnostic's
+    primary span `src/<module>.rs`) is dropped with `--cfg skip_<module>` and the expansion retried.
+    Each dropped module is recorded as failures[module] = first error message."""
+    import json
     os.makedirs(EXPDIR, exist_ok=True)
     h = hashlib.sha256()
     files = [p for p in walk_files(crate_dir) if "/target/" not in p]
-    for part in (repo_hash(), aux_hash(), hash_files(files), ",".join(features), " ".join(cfgs), crate_name):
+    for part in (repo_hash(), aux_hash(), hash_files(files), ",".join(features), " ".join(cfgs), crate_name,
+                 "skips" if failures is not None else ""):
         h.update(part.encode())
         h.update(b"|")
     key = h.hexdigest()[:32]
     out = os.path.join(EXPDIR, key + ".rs")
+    fout = os.path.join(EXPDIR, key + ".fail.json")
     if os.path.exists(out) and not os.environ.get("VERIF_NO_CACHE"):
+        if failures is not None and os.path.exists(fout):
+            failures.update(json.load(open(fout)))
         with open(out) as f:
             return f.read()
-    cmd = ["cargo", "+nightly", "rustc", "--offline", "--lib"]
-    if features:
-        cmd += ["--features", ",".join(features)]
-    cmd += ["--", "-Zunpretty=expanded", "-Awarnings"]
-    for c in cfgs:
-        cmd += ["--cfg", c]
-    p = sh(cmd, cwd=crate_dir, env={"CARGO_TARGET_DIR": TARGET}, timeout=1800)
-    text = p.stdout
-    if "fn " not in text and "mod " not in text and "trait " not in text:
-        raise CheckError("expansion of %s produced no output:\n%s" % (crate_name, p.stderr[-2000:]))
+    skipped = {}
+    while True:
+        cmd = ["cargo", "+nightly", "rustc", "--offline", "--lib"]
+        if features:
+            cmd += ["--features", ",".join(features)]
+        cmd += ["--", "-Zunpretty=expanded", "-Awarnings"]
+        for c in list(cfgs) + ["skip_" + m for m in sorted(skipped)]:
+            cmd += ["--cfg", c]
+        p = sh(cmd, cwd=crate_dir, env={"CARGO_TARGET_DIR": TARGET}, timeout=1800)
+        text = p.stdout
+        if "fn " in text or "mod " in text or "trait " in text:
+            break
+        bad = None
+        if failures is not None:
+            # first error whose primary span lies in a module file of the crate
+            m = re.search(r"^error[^\n]*\n(?:[^\n]*\n)*?\s*--> src/(\w+)\.rs:(\d+)", p.stderr, re.M)
+            if m and m.group(1) != "lib" and m.group(1) not in skipped:
+                bad = m.group(1)
+                first = re.search(r"^error[^\n]*", p.stderr, re.M).group(0)
+                skipped[bad] = "%s (src/%s.rs:%s)" % (first, bad, m.group(2))
+        if bad is None:
+            raise CheckError("expansion of %s produced no output:\n%s" % (crate_name, p.stderr[-2000:]))
     if p.returncode != 0 and not allow_errors:
         raise CheckError("expansion of %s failed:\n%s" % (crate_name, p.stderr[-2000:]))
     with open(out, "w") as f:
         f.write(text)
+    if failures is not None:
+        with open(fout, "w") as f:
+            json.dump(skipped, f)
+        failures.update(skipped)
     return text
 
 
